@@ -21,6 +21,7 @@ LEVEL_TEXT = (
     "InotifyEmitter.queue_events (both modes) are matched against the decode discipline; path enumeration of _decode_path, "
     "on_thread_start, ObservedWatch.__init__, DirectorySnapshot.walk and the polling emitter's root handling; package scan for raw "
     ".decode/.encode calls in the anchored modules."
+    ' Also: the watch key carries the stored path itself (value-origin tracing), so the str and bytes spellings of a directory are different watches.'
 )
 
 ARG_OK = re.compile(r"^(os\.path\.dirname\()?self\._decode_path\(ev(\[[01]\])?\.src_path\)\)?$|^''$|^\"\"$")
